@@ -970,3 +970,46 @@ Proof.
   - rewrite nth_error_feature_cover, Hk. simpl. do 2 f_equal. apply nthZ_some; [lia|auto].
   - exists c. split; auto. rewrite (nthZ_some i d r) in Hl by (auto; lia). exact Hl.
 Qed.
+
+(** * instance state: every call overwrites [_columns] before reading it *)
+Lemma preprocess_state_irrelevant {L A : Type} (st1 st2 : istate L) (fr : frame L A) :
+  preprocess st1 fr = preprocess st2 fr.
+Proof. destruct fr; reflexivity. Qed.
+
+Ltac split_matches :=
+  repeat match goal with
+         | |- context [match ?x with _ => _ end] => destruct x eqn:?; simpl
+         | |- context [if ?x then _ else _] => destruct x eqn:?; simpl
+         end; auto.
+
+Lemma call1_st_stateless {L A : Type} leqb (st : istate L) (fr : frame L A) c f :
+  snd (call1_st leqb st fr c f) = call1 leqb fr c f /\
+  fst (call1_st leqb st fr c f) = match fr with Arr _ => None | DF cols _ => Some cols end.
+Proof.
+  unfold call1_st, call1. destruct fr as [r|cols r]; simpl; (split; [|reflexivity]); split_matches.
+Qed.
+
+Lemma call_swap_st_stateless {L A : Type} leqb (st : istate L) (fr : frame L A) from to c1 c2 :
+  snd (call_swap_st leqb st fr from to c1 c2) = call_swap leqb fr from to c1 c2 /\
+  fst (call_swap_st leqb st fr from to c1 c2) = match fr with Arr _ => None | DF cols _ => Some cols end.
+Proof.
+  unfold call_swap_st, call_swap. destruct fr as [r|cols r]; simpl; (split; [|reflexivity]); split_matches.
+Qed.
+
+Lemma call_cover_st_stateless {L A : Type} leqb eqb ltb (dflt : A) (st : istate L) (fr : frame L A)
+  c size idxs :
+  snd (call_cover_st leqb eqb ltb dflt st fr c size idxs) = call_cover leqb eqb ltb dflt fr c size idxs /\
+  fst (call_cover_st leqb eqb ltb dflt st fr c size idxs) = match fr with Arr _ => None | DF cols _ => Some cols end.
+Proof.
+  unfold call_cover_st, call_cover. destruct fr as [r|cols r]; simpl; (split; [|reflexivity]); split_matches.
+Qed.
+
+(** a whole history: the results are those of independent calls, whatever the initial attribute *)
+Lemma run_calls_stateless {L A X : Type} (step : istate L -> X -> istate L * option (frame L A))
+  (pure : X -> option (frame L A)) :
+  (forall st x, snd (step st x) = pure x) ->
+  forall xs st, map snd (run_calls step st xs) = map pure xs.
+Proof.
+  intros H xs. induction xs as [|x xs IH]; intro st; simpl; [reflexivity|].
+  now rewrite H, IH.
+Qed.
